@@ -371,7 +371,8 @@ def r2_user_code_calls(ctx):
         for n in g.nodes:
             for c in node_calls(n):
                 r = ctx.res.resolve_call(f, c)
-                if r[0] == 'builtin' and r[1] in ('repr', 'str', 'format', 'ascii') and any(not isinstance(a, ast.Constant) for a in c.args):
+                is_fmt = isinstance(c.func, ast.Attribute) and c.func.attr == 'format' and isinstance(c.func.value, ast.Constant) and pol._formats_parameter(list(c.args) + [k.value for k in c.keywords])
+                if (r[0] == 'builtin' and r[1] in ('repr', 'str', 'format', 'ascii') and any(not isinstance(a, ast.Constant) for a in c.args)) or is_fmt:
                     n_sites += 1
                     # where does an Exception from this call go?
                     p = graph.path([t for (t, tok) in n.esucc() if tok == E], lambda x: x is g.raise_exit,
@@ -773,6 +774,7 @@ DE = 'xdoctest/doctest_example.py'
 CK = 'xdoctest/checker.py'
 RN = 'xdoctest/runner.py'
 VARIANTS = [
+    fire('fallback-repr-through-format', 'C09.R2', ('xdoctest/checker.py', "                try:\n                    got = repr(got_eval)\n                except Exception as ex:\n                    raise ExtractGotReprException('Error calling repr for {}. Caused by: {!r}'.format(type(got_eval), ex), ex)\n                flag = check_output(got, want, runstate)\n                if not flag:\n                    got = got_stdout\n", "                got = '{!r}'.format(got_eval)\n                flag = check_output(got, want, runstate)\n                if not flag:\n                    got = got_stdout\n")),
     fire('failed-part-set-after-directive-update', 'C09.R8', ('xdoctest/doctest_example.py', "                self.failed_part = part  # Assume part will fail (it may not)\n", ""), ('xdoctest/doctest_example.py', "                if not did_pre_import:\n", "                self.failed_part = part\n                if not did_pre_import:\n")),
     fire('report-line-from-f_lineno', 'C09.R9', ('xdoctest/doctest_example.py', "                            found_lineno = sub_tb.tb_lineno\n", "                            found_lineno = sub_tb.tb_frame.f_lineno\n")),
     fire('gotwant-not-recorded', 'C09.R1',
